@@ -10,14 +10,18 @@ import ElvModel.C05.Spec
 namespace C04
 open Go C08
 
-/-- bytes of number texts: digits, letters, `+ - . /` -/
+/-- bytes of number texts: digits, letters, `+ - . / _` (C05's number alphabet `isNumByte`) -/
 def numByteOK (c : UInt8) : Bool :=
-  (48 ≤ c && c ≤ 57) || (65 ≤ c && c ≤ 90) || (97 ≤ c && c ≤ 122) || c == 43 || c == 45 || c == 46 || c == 47
+  (48 ≤ c && c ≤ 57) || (65 ≤ c && c ≤ 90) || (97 ≤ c && c ≤ 122) || c == 43 || c == 45 || c == 46 || c == 47 ||
+    c == 95
 
 /-- a non-empty text made of number bytes -/
 def numTextOK (t : Bytes) : Bool := !t.isEmpty && t.all numByteOK
 
-/-- the strconv hypothesis for one float, as a Boolean -/
+/-- the strconv hypothesis for one float, as a Boolean.  The second conjunct
+follows from the first (`C04.floatHypOK_eq_strconv` in ElvProofs/C04/Num.lean:
+whatever `ParseNum` accepts is written in the number alphabet), so this IS
+C05's `strconvOKAt`; the driver still evaluates both. -/
 def floatHypOK (L : Lib) (b : UInt64) : Bool :=
   C05.strconvOKAt L.fmt b.toNat && numTextOK (C05.formatFloat64 L.fmt b.toNat)
 
